@@ -52,31 +52,31 @@ def fmtBools (l : List Bool) : String :=
 def fmtPicks (l : List (Nat × Nat)) : String :=
   "[" ++ ",".intercalate (l.map fun (d, s) => s!"{d}:{s}") ++ "]"
 
-def step (_ : Unit) (toks : List String) : Unit × String :=
+def stepPure (toks : List String) : String :=
   match toks with
   | ["rand.intn", n, c, hs] =>
     match parseInt? n, parseBool? c, parseHex? hs with
     | some n, some c, some s =>
       match randIntn n c s with
-      | .ok (v, rest) => ((), s!"ok {v} {s.length - rest.length}")
-      | .err e => ((), s!"err {errName e}")
-      | .panic m => ((), s!"panic {panicClass m}")
-    | _, _, _ => ((), "bad-op")
+      | .ok (v, rest) => (s!"ok {v} {s.length - rest.length}")
+      | .err e => (s!"err {errName e}")
+      | .panic m => (s!"panic {panicClass m}")
+    | _, _, _ => ("bad-op")
   | ["rand.sample", k, n, c, hs] =>
     match parseInt? k, parseInt? n, parseBool? c, parseHex? hs with
     | some k, some n, some c, some s =>
       match sample k n c s with
-      | .ok (k', picks, rest) => ((), s!"ok {k'} {fmtPicks picks} {s.length - rest.length}")
-      | .err e => ((), s!"err {errName e}")
-      | .panic m => ((), s!"panic {panicClass m}")
-    | _, _, _, _ => ((), "bad-op")
+      | .ok (k', picks, rest) => (s!"ok {k'} {fmtPicks picks} {s.length - rest.length}")
+      | .err e => (s!"err {errName e}")
+      | .panic m => (s!"panic {panicClass m}")
+    | _, _, _, _ => ("bad-op")
   | "mp.round" :: rest =>
     match kv? rest "cs", kv? rest "ps", kv? rest "s", kv? rest "succ" with
     | some cs, some ps, some hs, some succ =>
       match (parseList? cs).bind (·.mapM parseClient?), parseList? ps, parseHex? hs,
             (parseList? succ).bind (·.mapM parseSucc?) with
       | some cs, some ps, some s, some succ =>
-        if succ.length ≠ cs.length ∨ rest.length ≠ 4 then ((), "bad-op") else
+        if succ.length ≠ cs.length ∨ rest.length ≠ 4 then ("bad-op") else
         let ps := ps.map fpOfTok
         let out := round ftmLocal f11Fixed f12Fixed cs ps false s succ
         let used : Nat :=
@@ -86,13 +86,60 @@ def step (_ : Unit) (toks : List String) : Unit × String :=
           | _ => 0
         let tail := s!" assign={fmtOptNats out.assigned} reset={fmtBools out.reset} probes={fmtNatList out.probes} used={used} late=0"
         match out.res with
-        | .ok off => ((), s!"ok off={off}" ++ tail)
-        | .errSample e => ((), s!"err sample:{errName e}" ++ tail)
-        | .errNoPath => ((), "err nopath" ++ tail)
-        | .errNoMeasurement => ((), "err nomeas" ++ tail)
-        | .panic m => ((), s!"panic {panicClass m}")
-      | _, _, _, _ => ((), "bad-op")
-    | _, _, _, _ => ((), "bad-op")
-  | _ => ((), "bad-op")
+        | .ok off => (s!"ok off={off}" ++ tail)
+        | .errSample e => (s!"err sample:{errName e}" ++ tail)
+        | .errNoPath => ("err nopath" ++ tail)
+        | .errNoMeasurement => ("err nomeas" ++ tail)
+        | .panic m => (s!"panic {panicClass m}")
+      | _, _, _, _ => ("bad-op")
+    | _, _, _, _ => ("bad-op")
+  | _ => ("bad-op")
 
-def main : IO Unit := run () step
+/-- the answer of one round of the (repaired) model: `out` and the random bytes consumed -/
+def fmtRound (out : RoundOut) (used : Nat) : String :=
+  let tail := s!" assign={fmtOptNats out.assigned} reset={fmtBools out.reset} probes={fmtNatList out.probes} used={used} late=0"
+  match out.res with
+  | .ok off => s!"ok off={off}" ++ tail
+  | .errSample e => s!"err sample:{errName e}" ++ tail
+  | .errNoPath => "err nopath" ++ tail
+  | .errNoMeasurement => "err nomeas" ++ tail
+  | .panic m => s!"panic {panicClass m}"
+
+/-- State of the driver: the path table of the Pather of the current history (`pa.set`), paths
+    identified by their position in that table. Every `pa.round` is
+    `refclkRound pathsCopy` (Model/Multipath.lean) on a memory holding just the table. -/
+abbrev St := Option (List Path)
+
+def step (st : St) (toks : List String) : St × String :=
+  match toks with
+  | ["pa.set", ps] =>
+    match (kv? [ps] "ps").bind parseList? with
+    | some ps =>
+      if ps.length > 16 then (st, "bad-op")
+      else (some (offeredPaths (ps.map fpOfTok)), s!"ok n={ps.length}")
+    | none => (st, "bad-op")
+  | "pa.round" :: rest =>
+    match kv? rest "cs", kv? rest "s", kv? rest "succ" with
+    | some cs, some hs, some succ =>
+      match (parseList? cs).bind (·.mapM parseClient?), parseHex? hs, (parseList? succ).bind (·.mapM parseSucc?) with
+      | some cs, some s, some succ =>
+        if succ.length ≠ cs.length ∨ rest.length ≠ 3 then (st, "bad-op") else
+        match st with
+        | none => (st, "err nopather")
+        | some table =>
+          let (out, m') := refclkRound pathsCopy ftmLocal f11Fixed f12Fixed [table] 0 cs false s succ
+          let table' := m'.getD 0 []
+          let used : Nat :=
+            match assignFrom (stickyLoop f11Fixed cs table) false s with
+            | (.ok _ r, _) => s.length - r.length
+            | (.errNoPath r, _) => s.length - r.length
+            | _ => 0
+          let ix (l : List Path) := fmtNatList (l.map (·.1))
+          let ans := fmtRound out used
+          if ans.startsWith "panic" then (some table', ans)
+          else (some table', ans ++ s!" offered={ix table} held={ix table'}")
+      | _, _, _ => (st, "bad-op")
+    | _, _, _ => (st, "bad-op")
+  | _ => (st, stepPure toks)
+
+def main : IO Unit := run (none : St) step
